@@ -347,6 +347,7 @@ type SpecFile struct {
 	FieldInvs  [][5]string // struct, field, expression over v (single-field invariant), props, file:line
 	Frozen     [][3]string // struct, field, props: written only on objects allocated by the writing function
 	Histories  [][3]string // two-state invariant over ghost accessors (expr with old()), props, file:line
+	Confined   [][4]string // function, allowed package variables (space separated), props, file:line
 	GlobalInvs [][2]string // facts about package-level variables (established by initialisation), file:line
 	TypeInvs  [][3]string // struct type, expression over "self", file:line
 }
@@ -506,6 +507,12 @@ func ParseSpecLines(sf *SpecFile, file string, lines []string, trusted bool) err
 			}
 			tf := strings.SplitN(fields[1], ".", 2)
 			sf.MapInvs = append(sf.MapInvs, [5]string{tf[0], tf[1], strings.TrimSpace(rest[len(fields[1]):]), strings.Join(tags, ","), l.at})
+		case "confined":
+			// confined[C14] newWithChunkMode encoder decoder   (stores no other package-level variable, transitively)
+			if len(fields) < 2 {
+				return errf("confined[props] func [allowed package variables...]")
+			}
+			sf.Confined = append(sf.Confined, [4]string{fields[1], strings.Join(fields[2:], " "), strings.Join(tags, ","), l.at})
 		case "history":
 			// history[C11] forall(r, isCHW(r) ==> outlen(r) >= old(outlen(r)))   (transitive two-state invariant of ghost state)
 			sf.Histories = append(sf.Histories, [3]string{rest, strings.Join(tags, ","), l.at})
